@@ -25,7 +25,7 @@ const (
 
 var clsNames = []string{"loaded", "idle-recent", "idle-expired", "not-ready", "out-of-sync", "get-fail", "runtime-fail", "loaded-small", "overloaded-stuck", "overloaded-relievable", "idle-expired-stale-head"}
 
-func c07Shard(cls int, idx int) (h1.Shard, []h1.Tgt) {
+func c07Shard(cls int, idx int, maxHead int64) (h1.Shard, []h1.Tgt) {
 	s := h1.Shard{Ready: true}
 	var ts []h1.Tgt
 	load := func(size int64) {
@@ -56,6 +56,9 @@ func c07Shard(cls int, idx int) (h1.Shard, []h1.Tgt) {
 	case clsIdleExpiredStale:
 		s.IdleAgoSec = i64p(7200)
 		s.Head = 65
+		if maxHead > 100 {
+			s.Head = maxHead - 5 // nothing fits next to the stale head series
+		}
 	case clsNotReady:
 		s.Ready = false
 		load(30)
@@ -89,7 +92,7 @@ func c07Gen(c *chk.Ctx) func(emit func(*h1.Scenario)) {
 	if c.Thorough() {
 		maxN = 4
 		classes = []int{clsLoaded, clsIdleRecent, clsIdleExpired, clsNotReady, clsOutOfSync, clsOverBig, clsOverSmall, clsIdleExpiredStale, clsRuntimeFail, clsLoadedMovable}
-		heads = []int64{0, 100}
+		heads = []int64{0, 100, 1000}
 	}
 	type mm struct{ min, max int32 }
 	var mms []mm
@@ -118,7 +121,7 @@ func c07Gen(c *chk.Ctx) func(emit func(*h1.Scenario)) {
 										rep := h1.Replica{}
 										note := ""
 										for si, cl := range cls {
-											s, ts := c07Shard(classes[cl], si)
+											s, ts := c07Shard(classes[cl], si, head)
 											rep.Shards = append(rep.Shards, s)
 											sc.Targets = append(sc.Targets, ts...)
 											note += clsNames[classes[cl]] + ","
